@@ -107,6 +107,8 @@ type PeerSpec struct {
 	// BadExtReply: a 101 that is valid except that it announces
 	// permessage-deflate without the no_context_takeover parameters.
 	BadExtReply bool `json:"bad_ext_reply,omitempty"`
+	// ReplyHeader: a further header line of the (otherwise valid) 101.
+	ReplyHeader string `json:"reply_header,omitempty"`
 }
 
 // PeerLog is what the peer observed.
@@ -126,6 +128,7 @@ type PeerLog struct {
 	BackendSNI        string
 	BackendTLSDone    bool
 	UpgradeReqs       int
+	UpgradeTarget     string // request-target of the upgrade request as the backend saw it
 	UpgradeInsideTLS  bool
 	UpgradeHost       string
 	BytesAfterRefusal int
@@ -367,6 +370,7 @@ func runPeer(raw net.Conn, spec PeerSpec, log *PeerLog) {
 	log.UpgradeReqs++
 	log.UpgradeInsideTLS = spec.BackendTLS
 	log.UpgradeHost = req.Host
+	log.UpgradeTarget = req.RequestURI
 	log.mu.Unlock()
 	if spec.Stall == "ws-reply" {
 		stall(c)
@@ -390,6 +394,9 @@ func runPeer(raw net.Conn, spec PeerSpec, log *PeerLog) {
 	resp := "HTTP/1.1 101 Switching Protocols\r\nUpgrade: websocket\r\nConnection: Upgrade\r\nSec-WebSocket-Accept: " + wsref.AcceptKey(req.Header.Get("Sec-Websocket-Key")) + "\r\n\r\n"
 	if spec.BadExtReply {
 		resp = strings.TrimSuffix(resp, "\r\n") + "Sec-WebSocket-Extensions: permessage-deflate; server_no_context_takeover\r\n\r\n"
+	}
+	if spec.ReplyHeader != "" {
+		resp = strings.TrimSuffix(resp, "\r\n") + spec.ReplyHeader + "\r\n\r\n"
 	}
 	if _, err := c.Write([]byte(resp)); err != nil {
 		return
